@@ -13,6 +13,7 @@ import (
 	"net"
 	"strings"
 	"sync"
+	"sync/atomic"
 	"time"
 
 	"github.com/jhump/grpctunnel/verifrt"
@@ -166,6 +167,31 @@ type MStream struct {
 
 	// statistics for oracles
 	C2SSent, S2CSent, C2SRecv, S2CRecv int
+
+	// calls in progress per side and direction: grpc allows one goroutine sending and one
+	// receiving on a stream, not two of either (the library's thread-safe wrappers are there
+	// to guarantee it); a thread parked inside a call at its scheduling point is "in" the call
+	active [4]int32
+}
+
+const (
+	actCSend = iota
+	actCRecv
+	actSSend
+	actSRecv
+)
+
+var actNames = [4]string{"client-side send calls (Send/SendMsg/CloseSend)", "client-side receive calls", "server-side send calls", "server-side receive calls"}
+
+// enter marks a call in progress and reports a second concurrent one of the same kind.
+func (ms *MStream) enter(kind int) func() {
+	if atomic.AddInt32(&ms.active[kind], 1) > 1 {
+		w := ms.net.W
+		w.mu.Lock()
+		w.ContractViolations = append(w.ContractViolations, fmt.Sprintf("%s: two concurrent %s on one carrier stream", ms.Name, actNames[kind]))
+		w.mu.Unlock()
+	}
+	return func() { atomic.AddInt32(&ms.active[kind], -1) }
 }
 
 func (n *Net) NewStream(ctx context.Context, desc *grpc.StreamDesc, method string, opts ...grpc.CallOption) (grpc.ClientStream, error) {
@@ -344,6 +370,7 @@ func (c *mClientStream) Trailer() metadata.MD {
 }
 
 func (c *mClientStream) CloseSend() error {
+	defer c.enter(actCSend)()
 	n := c.net
 	n.await("c.closesend:"+c.Name, c.MStream, func() bool { return true })
 	defer n.mu.Unlock()
@@ -356,6 +383,7 @@ func (c *mClientStream) CloseSend() error {
 }
 
 func (c *mClientStream) SendMsg(m any) error {
+	defer c.enter(actCSend)()
 	n := c.net
 	b, err := detMarshal.Marshal(m.(proto.Message))
 	n.await("c.send:"+c.Name, c.MStream, func() bool {
@@ -403,6 +431,7 @@ func (c *MStream) abortLocked(e error) {
 }
 
 func (c *mClientStream) RecvMsg(m any) error {
+	defer c.enter(actCRecv)()
 	n := c.net
 	n.await("c.recv:"+c.Name, c.MStream, func() bool {
 		return len(c.s2c) > 0 || c.Finished || c.cErr != nil || c.cctx.Err() != nil
@@ -490,6 +519,7 @@ func (s *mServerStream) SetTrailer(md metadata.MD) {
 }
 
 func (s *mServerStream) SendMsg(m any) error {
+	defer s.enter(actSSend)()
 	n := s.net
 	b, err := detMarshal.Marshal(m.(proto.Message))
 	n.await("s.send:"+s.Name, s.MStream, func() bool {
@@ -529,6 +559,7 @@ func (s *mServerStream) SendMsg(m any) error {
 }
 
 func (s *mServerStream) RecvMsg(m any) error {
+	defer s.enter(actSRecv)()
 	n := s.net
 	n.await("s.recv:"+s.Name, s.MStream, func() bool {
 		return len(s.c2s) > 0 || s.c2sClosed || s.sErr != nil || s.sctx.Err() != nil
